@@ -5,12 +5,15 @@ constructor / move assignment. Obligation: no CFG path from the move reaches a l
 call, iteration, pass as argument) without x having been re-assigned or cleared first. A moved-from
 standard container is empty, so e.g. a loop over it that was meant to mark final states does nothing.
 Moves of `*this` bases / of members in move constructors (one member per initialiser) are not
-instances."""
+instances.  Clause `swapout`: a local that is swapped into an output parameter (`out->swap(local)`,
+`std::swap(*out, local)`) has been handed to the caller; reading it afterwards reads what the caller passed in
+(seed C08-6)."""
 from vfacts import strip, walk, method_name, must_pass_through, is_node
 from .prov import var_table
 
 RULE = 'USEMOVE'
 FLOOR = 4
+WITNESS = 'src/usemove.cc'
 RESETS = {'clear', 'assign', 'reset', 'operator=', 'swap'}
 
 
@@ -77,3 +80,53 @@ def run(unit, em):
             else:
                 _, line, _ = unit.loc(wit)
                 em.violation(c, txt, '%s is read again at line %d (%s) after it was moved from: a moved-from container is empty' % (a['n'], line, unit.text(wit.get('_p') or wit, 50)))
+        # ---- swap-out: a local handed to the caller by swapping it into an output parameter is not read afterwards
+        params = {p['d'] for p in fn.params}
+        for c in fn.calls():
+            L = P = None
+            if c['k'] == 'CXXMemberCallExpr' and method_name(c) == 'swap' and len(c.get('args', [])) == 1:
+                o, a0 = strip(c.get('obj')), strip(c['args'][0])
+                cand = [(o, a0), (a0, o)]
+            elif c['k'] == 'CallExpr' and (c.get('q') or '').endswith('swap') and len(c.get('args', [])) == 2:
+                a0, a1 = strip(c['args'][0]), strip(c['args'][1])
+                cand = [(a0, a1), (a1, a0)]
+            else:
+                continue
+            for outp, loc in cand:
+                if outp is None or loc is None:
+                    continue
+                base = outp
+                while base is not None and base['k'] == 'UnaryOperator' and base.get('op') == '*':
+                    base = strip(base['ch'][0])
+                if base is not None and base['k'] == 'DeclRefExpr' and base.get('d') in params and loc['k'] == 'DeclRefExpr' and loc.get('dk') == 'local':
+                    v = var_table(fn).get(loc['d'])
+                    if v is not None and v['kind'] == 'local' and not unit.ty(v['decl']).rstrip().endswith(('&', '*')):
+                        L, P = loc, base
+            if L is None:
+                continue
+            d = L['d']
+            pos = cfg.locate(c)
+            if pos is None:
+                continue
+
+            def is_reset2(x, d=d):
+                if x['k'] == 'DeclStmt' and any(dd['d'] == d for dd in x.get('decls', [])):
+                    return True
+                if x['k'] == 'CXXMemberCallExpr' and method_name(x) in ('clear', 'assign') and (strip(x.get('obj')) or {}).get('d') == d:
+                    return True
+                if x['k'] in ('CXXOperatorCallExpr', 'BinaryOperator') and x.get('op') == '=':
+                    ops = x.get('args') or x.get('ch')
+                    if ops and (strip(ops[0]) or {}).get('d') == d:
+                        return True
+                return False
+            inside = {id(x) for x in walk(c)}
+
+            def is_use2(x, d=d):
+                return x['k'] == 'DeclRefExpr' and x.get('d') == d and id(x) not in inside
+            ok, wit = must_pass_through(cfg, pos, is_use2, is_reset2)
+            txt = unit.text(c, 60)
+            if ok:
+                em.ok(c, txt, 'the local is not read after it was swapped out to the caller', 'swapout')
+            else:
+                em.violation(c, txt, '`%s` is swapped into the output parameter `%s` here and read again at line %d: from here on it holds whatever the caller passed in (normally nothing), not what was collected' % (
+                    L.get('n'), P.get('n'), unit.loc(wit)[1]), 'swapout')
